@@ -117,7 +117,7 @@ class Run:
         return out
 
     # ---- validation of independent-event traces ----------------------------------------------
-    def validate(self, family, trace, spec, chunk=20000, xmx="3g", jobs=16, prefix=None, label=None, env=None, timeout=3600):
+    def validate(self, family, trace, spec, chunk=20000, xmx="3g", jobs=16, prefix=None, label=None, env=None, timeout=3600, group_on=None):
         """Split `trace` in chunks, run the trace specification on each (parallel JVMs), collect every
         failing event.  Only clauses starting with `prefix` (the property id) count."""
         prefix = prefix or self.prop
@@ -125,10 +125,21 @@ class Run:
         if not lines:
             raise MachineryError("driver %s produced an empty trace" % family)
         chunks = []
-        for i in range(0, len(lines), chunk):
-            path = "%s.c%d" % (trace, i // chunk)
-            open(path, "w").write("\n".join(lines[i:i + chunk]) + "\n")
-            chunks.append((i, path, min(chunk, len(lines) - i)))
+        if group_on:   # stateful traces: cut only where the recorded system was reset
+            marker = '"ev":"%s"' % group_on
+            cuts, last = [0], 0
+            for i, ln in enumerate(lines):
+                if marker in ln and i - last >= chunk:
+                    cuts.append(i)
+                    last = i
+            cuts.append(len(lines))
+            bounds = [(cuts[j], cuts[j + 1]) for j in range(len(cuts) - 1) if cuts[j + 1] > cuts[j]]
+        else:
+            bounds = [(i, min(i + chunk, len(lines))) for i in range(0, len(lines), chunk)]
+        for j, (a, b) in enumerate(bounds):
+            path = "%s.c%d" % (trace, j)
+            open(path, "w").write("\n".join(lines[a:b]) + "\n")
+            chunks.append((a, path, b - a))
 
         def one(c):
             base, path, cnt = c
